@@ -137,6 +137,7 @@ impl ScProp {
                 p.guards = 600;
                 p.content = 800;
                 p.readonly_writes = 80;
+                p.event_fields = 500;
                 p.state_data = 400;
                 p.late = rng.chance(1, 2) && dm != Dm::Null;
                 p.parallel = 350;
